@@ -21,3 +21,43 @@ package historyprunner
 //@   ensures fresh_run_untouched: len(state) == 0 ==> result == nil && m.floorPinned == old(m.floorPinned) && m.oldestBlockKept == old(m.oldestBlockKept) && m.stagerProgress == old(m.stagerProgress) && m.restorerProgress == old(m.restorerProgress)
 //@   ensures wrong_size_rejected: len(state) != 0 && len(state) != 24 ==> result != nil
 //@   ensures resumed_pinned: len(state) == 24 ==> result == nil && m.floorPinned && m.stagerProgress == be64of(state[0:8]) && m.restorerProgress == be64of(state[8:16]) && m.oldestBlockKept == be64of(state[16:24])
+
+// ---- the cut-off is computed from what is confirmed on L1, never from beyond it (C16) -------------
+// The pivot handed to the floor computation is the lower of the L1 head and the chain height: a
+// block that L1 has not confirmed is never counted as prunable history; and a pinned cut-off is
+// used as it is.
+//@ ghost var l1HeadRead uint64
+//@ ghost var heightRead uint64
+//@ extern func github.com/NethermindEth/juno/core.GetChainHeight
+//@   sets heightRead = result0
+//@ extern func github.com/NethermindEth/juno/core.GetL1Head
+//@   sets l1HeadRead = result0.BlockNumber
+//@ extern func errors.Is
+//@ func (*Migrator).retentionFloorWithMinAge
+//@   trusted
+//@   logged
+//@ func (*Migrator).setupBeforeStager
+//@   trusted
+//@   logged
+//@ func (*Migrator).setupBeforeRestorer
+//@   trusted
+//@ func (*Migrator).runStager
+//@   trusted
+//@ func (*Migrator).runRestorer
+//@   trusted
+//@ extern func github.com/NethermindEth/juno/migration/semaphore.New
+//@ extern func runtime.GOMAXPROCS
+//@ extern func time.Now
+//@ extern func time.Since
+//@ extern func go.uber.org/zap.Uint64
+//@ extern func go.uber.org/zap.Duration
+//@ func (*Migrator).Migrate
+//@   props C16, C18
+//@   arith int
+//@   nosafe
+//@   requires m != nil
+//@   modifies *
+//@   assigns l1HeadRead, heightRead, calls_retentionFloorWithMinAge, arg_retentionFloorWithMinAge_database, arg_retentionFloorWithMinAge_pivot, calls_setupBeforeStager, arg_setupBeforeStager_database, arg_setupBeforeStager_oldestBlockKept
+//@   callsite retentionFloorWithMinAge@*: pivot_confirmed_on_l1: !m.floorPinned && $2 <= l1HeadRead && $2 <= heightRead && ($2 == l1HeadRead || $2 == heightRead) && $2 >= m.retainedBlocks
+//@   callsite setupBeforeStager@*: pinned_cutoff_used: m.floorPinned && $2 == m.oldestBlockKept
+//@   ensures pinned_cutoff_kept: old(m.floorPinned) ==> m.oldestBlockKept == old(m.oldestBlockKept) || calls_setupBeforeStager != old(calls_setupBeforeStager)
